@@ -750,11 +750,57 @@ func ruleLRPC(p *Program, r *Reporter) {
 		// acquisition is only reached past `if x.flag { ...; return }`)
 		whenFalse []*types.Var
 	}
-	flagsFalseAt := func(b *ssa.BasicBlock) []*types.Var {
+	var flagsFalseAt func(b *ssa.BasicBlock, depth int) []*types.Var
+	// falseWhenReturnsFalse: the boolean fields known false whenever predicate h returns false
+	// (every `return false` of h lies past a test that found the field false)
+	falseWhenReturnsFalse := func(h *ssa.Function, depth int) []*types.Var {
+		if h == nil || len(h.Blocks) == 0 || depth > 2 || h.Signature.Results().Len() != 1 {
+			return nil
+		}
+		var common map[*types.Var]bool
+		for _, hb := range h.Blocks {
+			ret, ok := hb.Instrs[len(hb.Instrs)-1].(*ssa.Return)
+			if !ok || isRecoverBlock(hb) {
+				continue
+			}
+			k, isC := retValue(ret, 0).(*ssa.Const)
+			if !isC || k.Value == nil || k.Value.Kind() != constant.Bool {
+				return nil
+			}
+			if constant.BoolVal(k.Value) {
+				continue
+			}
+			here := map[*types.Var]bool{}
+			for _, f := range flagsFalseAt(hb, depth+1) {
+				here[f] = true
+			}
+			if common == nil {
+				common = here
+			} else {
+				for f := range common {
+					if !here[f] {
+						delete(common, f)
+					}
+				}
+			}
+		}
+		var out []*types.Var
+		for f := range common {
+			out = append(out, f)
+		}
+		return out
+	}
+	flagsFalseAt = func(b *ssa.BasicBlock, depth int) []*types.Var {
 		var out []*types.Var
 		for _, f := range conjunctFacts(b) {
 			c, truth := normFact(f)
 			if truth {
+				continue
+			}
+			if call, isCall := c.(*ssa.Call); isCall {
+				if sc := call.Call.StaticCallee(); sc != nil && pkgOf(sc) == "client" {
+					out = append(out, falseWhenReturnsFalse(sc, depth)...)
+				}
 				continue
 			}
 			ld, ok := c.(*ssa.UnOp)
@@ -803,7 +849,7 @@ func ruleLRPC(p *Program, r *Reporter) {
 						if cls && op.acquire {
 							var wf []*types.Var
 							if g == root {
-								wf = flagsFalseAt(b)
+								wf = flagsFalseAt(b, 0)
 							}
 							handlerLocks[op.key.field] = append(handlerLocks[op.key.field], acq{op.key.mode, ins.Pos(), g, reg.name, wf})
 						}
